@@ -43,6 +43,27 @@ var bridgeOps = []struct{ Name, Src string }{
 	{"gopd", `Object.getOwnPropertyDescriptor(%X, %P)`},
 	{"hasOwn", `Object.prototype.hasOwnProperty.call(%X, %P)`},
 	{"for-in", `(function(){ var k = []; for (var n in %X) k.push(n); return k.join() })()`},
+	// enumeration WHILE the container is mutated (the enumerators of bridged
+	// slices / maps work from a snapshot of the length / key list)
+	{"forin-shrink", `(function(){ var c = 0; for (var n in %X) { c++; try { %X.length = 1 } catch (e) {} } return c })()`},
+	{"forin-length0", `(function(){ var c = 0; for (var n in %X) { c++; try { %X.length = 0 } catch (e) {} } return c })()`},
+	{"forin-delete-all", `(function(){ var c = 0; for (var n in %X) { c++; for (var m in %X) { try { delete %X[m] } catch (e) {} } } return c })()`},
+	{"forin-delete-name", `(function(){ var c = 0; for (var n in %X) { c++; try { delete %X[%P]; delete %X.b; delete %X[1]; delete %X[2] } catch (e) {} } return c })()`},
+	{"forin-pop", `(function(){ var c = 0; for (var n in %X) { c++; try { Array.prototype.pop.call(%X); Array.prototype.shift.call(%X) } catch (e) {} } return c })()`},
+	{"forin-push", `(function(){ var c = 0; for (var n in %X) { if (++c > 20) break; try { Array.prototype.push.call(%X, 1); %X["k" + c] = 1 } catch (e) {} } return c })()`},
+	{"forin-reassign", `(function(){ var x = %X, c = 0; for (var n in x) { c++; x = {}; try { %X.length = 0 } catch (e) {} } return c })()`},
+	{"forin-read-after-shrink", `(function(){ var r = []; for (var n in %X) { try { %X.length = 1 } catch (e) {} r.push(typeof %X[n], n in %X) } return r.join() })()`},
+	{"keys-forEach-mutate", `Object.keys(%X).forEach(function(n){ try { %X.length = 0 } catch (e) {} try { delete %X[n] } catch (e) {} return typeof %X[n] })`},
+	{"gopn-mutate", `Object.getOwnPropertyNames(%X).map(function(n){ try { %X.length = 1 } catch (e) {} return JSON.stringify(Object.getOwnPropertyDescriptor(%X, n)) }).length`},
+	{"forEach-mutate", `(function(){ var c = 0; Array.prototype.forEach.call(%X, function(v, i, a){ c++; try { a.length = 1 } catch (e) {} try { delete a[i + 1] } catch (e) {} }); return c })()`},
+	{"map-mutate", `Array.prototype.map.call(%X, function(v, i, a){ try { a.length = 0 } catch (e) {} return v }).length`},
+	{"some-mutate", `Array.prototype.some.call(%X, function(v, i, a){ try { Array.prototype.pop.call(a) } catch (e) {} return false })`},
+	{"reduce-mutate", `Array.prototype.reduce.call(%X, function(p, v, i, a){ try { a.length = 1 } catch (e) {} return p }, 0)`},
+	{"sort-mutate", `(function(){ try { return Array.prototype.sort.call(%X, function(){ try { %X.length = 1 } catch (e) {} return 1 }).length } catch (e) { return e.name } })()`},
+	{"stringify-replacer-mutate", `JSON.stringify(%X, function(k, v){ try { %X.length = 0 } catch (e) {} try { for (var m in %X) delete %X[m] } catch (e) {} return v })`},
+	{"stringify-nested-mutate", `JSON.stringify({a: %X, toJSON: function(){ try { %X.length = 1 } catch (e) {} return {b: %X, c: %X} }})`},
+	{"join-mutate", `(function(){ var t = {toString: function(){ try { %X.length = 1 } catch (e) {} return "t" }}; return [t, %X, t].join() + Array.prototype.join.call(%X, t) })()`},
+	{"freeze-forin", `(function(){ try { Object.freeze(%X) } catch (e) {} var c = 0; for (var n in %X) { c++; try { %X.length = 0 } catch (e) {} } return c })()`},
 	{"keys", `Object.keys(%X).concat(Object.getOwnPropertyNames(%X)).join()`},
 	{"json", `JSON.stringify(%X)`},
 	{"string", `String(%X) + (%X + 1)`},
